@@ -1,6 +1,6 @@
 (* C18 - OS and process information streams mirror the target.  Property theorems only (derivation logic). *)
 From Coq Require Import List NArith Arith.
-From MDW Require Import Bytes GenTypes Generated MemInfo DsoDebug DsoStream DsoStreamProofs.
+From MDW Require Import Bytes GenTypes Generated MemInfo MemInfoProofs DsoDebug DsoStream DsoStreamProofs.
 Import ListNotations.
 Local Open Scope N_scope.
 
